@@ -100,6 +100,13 @@ def gen_matrix(rng, kind, n, cplx):
             A = M + M.T + np.diag([rng.randint(3, 6) for _ in range(n)])
             if cplx and np.allclose(A, A.conj().T):
                 continue
+        elif kind == "csymrd":
+            # complex SYMMETRIC (not Hermitian) with a REAL, positive, dominant diagonal: looks positive definite on the diagonal,
+            # but a Cholesky factorisation (which reads one triangle as Hermitian) would solve another system
+            A = M + M.T
+            A[np.diag_indices(n)] = [float(np.abs(A[i]).sum() + rng.randint(1, 3)) for i in range(n)]
+            if cplx and np.allclose(A, A.conj().T):
+                continue
         else:
             raise ValueError(kind)
         if kind != "diag" and np.allclose(A, np.diag(np.diag(A))):
@@ -1020,7 +1027,7 @@ def run_auto(ctx):
     _, _, ad = _sol()
     reqs, meta = [], []
     reps = 1 if ctx.quick else 4
-    for kind in KINDS:
+    for kind in KINDS + ["csymrd", "csymrd"]:
         for cplx in (False, True):
             for sparse in (False, True):
                 for _ in range(reps):
@@ -1028,7 +1035,7 @@ def run_auto(ctx):
                     A = gen_matrix(rng, kind, n, cplx)
                     Aarg = sps.csc_matrix(A) if sparse else A
                     ov = {}
-                    if rng.random() < 0.25:
+                    if rng.random() < 0.25 and kind != "csymrd":
                         key = rng.choice(["ishermitian", "issymmetric", "isdiagonal"])
                         ov[key] = rng.random() < 0.5
                     with warnings.catch_warnings():
